@@ -1,13 +1,45 @@
 #!/usr/bin/env python3
 """Mutation harness for the checker (development tool, not a registered check).
   mut.py run <patch> [PROP ...]     apply patch to a scratch copy of /repo, run vcheck for PROPs (default: all)
-  mut.py corpus [dir ...]           run every */patch.diff|*.patch under the dirs (default /verif/mutants /verif/seeded)
-A mutant is 'caught' if vcheck prints a VIOLATION line for the expected property.
+  mut.py corpus [-j N] [-all] [dir ...]   run every */patch.diff|*.patch under the dirs (default /verif/mutants /verif/seeded)
+A mutant is 'caught' if vcheck reports, for the expected property, a (rule, construct) violation that the
+unmodified tree does not report. With -all, every property is run and the set of firing properties is shown.
+Mutants under a 'neutral' directory are behaviour-preserving edits: they must add no report for any property.
 """
 import json, os, shutil, subprocess, sys, tempfile, glob, re
+from concurrent.futures import ThreadPoolExecutor
 
 VCHECK = "/verif/bin/vcheck"
 ENV = dict(os.environ, GOFLAGS="-mod=mod", GOPROXY="off", GOSUMDB="off", GOTOOLCHAIN="local")
+ALL = ["C%02d" % i for i in range(1, 21)]
+
+def registered():
+    m = json.load(open("/verif/MANIFEST.json"))
+    return sorted(c["property_id"] for c in m["checks"])
+
+def run_vcheck(repo, props):
+    ev = tempfile.mkdtemp(prefix="vmut-ev-")
+    try:
+        env = dict(ENV, VERIF_REPO=repo, VERIF_EVIDENCE_DIR=ev)
+        r = subprocess.run([VCHECK, "-property", ",".join(props)], env=env, capture_output=True, text=True)
+        out = r.stdout + r.stderr
+        reports = set()
+        for l in out.splitlines():
+            m = re.match(r"REPORT (\S+) (\S+): (.*?) — ", l)
+            if m:
+                reports.add((m.group(1), m.group(2), m.group(3)))
+            elif l.startswith("REPORT "):
+                reports.add((l.split()[1], "infra", l[:200]))
+        return reports, out
+    finally:
+        shutil.rmtree(ev, ignore_errors=True)
+
+_baseline = {}
+def baseline(props):
+    key = ",".join(props)
+    if key not in _baseline:
+        _baseline[key] = run_vcheck("/repo", props)[0]
+    return _baseline[key]
 
 def scratch_copy():
     d = tempfile.mkdtemp(prefix="vmut-")
@@ -16,67 +48,79 @@ def scratch_copy():
 
 def run_patch(patch, props):
     d = scratch_copy()
-    ev = tempfile.mkdtemp(prefix="vmut-ev-")
     try:
         r = subprocess.run(["git", "apply", "--whitespace=nowarn", os.path.abspath(patch)], cwd=d, capture_output=True, text=True)
         if r.returncode != 0:
             r = subprocess.run(["patch", "-p1", "-s", "-i", os.path.abspath(patch)], cwd=d, capture_output=True, text=True)
             if r.returncode != 0:
-                return None, "patch does not apply: " + r.stderr.strip()[:300]
-        env = dict(ENV, VERIF_REPO=d, VERIF_EVIDENCE_DIR=ev)
-        arg = "all" if not props else None
-        out = ""
-        if arg:
-            r = subprocess.run([VCHECK, "-property", "all"], env=env, capture_output=True, text=True)
-            out = r.stdout + r.stderr
-        else:
-            for p in props:
-                r = subprocess.run([VCHECK, "-property", p], env=env, capture_output=True, text=True)
-                out += r.stdout + r.stderr
-        fired = sorted(set(re.findall(r"^VIOLATION property=(\S+)", out, re.M)))
-        reports = [l for l in out.splitlines() if l.startswith("REPORT ")]
-        return fired, "\n".join(reports)
+                return None, "patch does not apply: " + (r.stderr + r.stdout).strip()[:300]
+        reports, out = run_vcheck(d, props)
+        new = sorted(reports - baseline(props))
+        return new, out
     finally:
         shutil.rmtree(d, ignore_errors=True)
-        shutil.rmtree(ev, ignore_errors=True)
 
 def expected_of(path):
-    # /verif/mutants/C09/x.patch or /verif/seeded/C09-a/patch.diff with meta.json
-    m = re.search(r"/(C\d\d)", path)
     meta = os.path.join(os.path.dirname(path), "meta.json")
     if os.path.exists(meta):
         try:
             return json.load(open(meta)).get("property")
         except Exception:
             pass
+    m = re.search(r"/(C\d\d)", path)
     return m.group(1) if m else None
 
 def main():
     if len(sys.argv) < 2:
         print(__doc__); return 2
     if sys.argv[1] == "run":
-        fired, rep = run_patch(sys.argv[2], sys.argv[3:])
-        print("fired:", fired); print(rep); return 0
+        props = sys.argv[3:] or registered()
+        new, out = run_patch(sys.argv[2], props)
+        print("new reports:")
+        for n in new or []: print("  ", n)
+        return 0
     if sys.argv[1] == "corpus":
-        dirs = sys.argv[2:] or ["/verif/mutants", "/verif/seeded"]
+        args = sys.argv[2:]
+        jobs = 4
+        if "-j" in args:
+            i = args.index("-j"); jobs = int(args[i + 1]); del args[i:i + 2]
+        allp = "-all" in args
+        verbose = "-v" in args
+        args = [a for a in args if a not in ("-all", "-v")]
+        dirs = args or ["/verif/mutants", "/verif/seeded"]
         files = []
         for d in dirs:
+            if os.path.isfile(d): files.append(d); continue
             files += glob.glob(d + "/**/*.patch", recursive=True) + glob.glob(d + "/**/patch.diff", recursive=True)
-        ok = miss = 0
-        for f in sorted(files):
+        files = sorted(set(os.path.abspath(f) for f in files))
+        reg = registered()
+        def work(f):
             exp = expected_of(f)
             neutral = "/neutral/" in f
-            fired, rep = run_patch(f, [exp] if (exp and not neutral) else [])
-            if fired is None:
-                print(f"SKIP  {f}: {rep}"); continue
-            if neutral:
-                good = not fired
-            else:
-                good = exp in fired
-            print(("CAUGHT " if good and not neutral else "QUIET  " if good else "MISSED " if not neutral else "FALSE-ALARM "), f, fired)
-            if not good or "-v" in sys.argv:
-                print("   " + rep.replace("\n", "\n   "))
-            ok += good; miss += (not good)
+            props = reg if (allp or neutral or not exp) else [exp]
+            if not neutral and exp and exp not in reg:
+                return f, exp, neutral, None, f"property {exp} not registered"
+            baseline(props)
+            new, out = run_patch(f, props)
+            return f, exp, neutral, new, out
+        ok = miss = 0
+        baseline(reg) if (allp) else None
+        with ThreadPoolExecutor(max_workers=jobs) as ex:
+            for f, exp, neutral, new, out in ex.map(work, files):
+                rel = os.path.relpath(f, "/verif")
+                if new is None:
+                    print(f"SKIP   {rel}: {out}"); continue
+                fired = sorted(set(n[0] for n in new))
+                if neutral:
+                    good = not new
+                    tag = "QUIET " if good else "FALSE-ALARM"
+                else:
+                    good = exp in fired
+                    tag = "CAUGHT" if good else "MISSED"
+                print(f"{tag} {rel} fired={fired}")
+                if (not good) or verbose:
+                    for n in new: print("      ", n[1], n[2])
+                ok += good; miss += (not good)
         print(f"{ok} as expected, {miss} not")
         return 0 if miss == 0 else 1
 
